@@ -440,6 +440,7 @@ def refine_validate(ctx, n, only=None, kind="mix"):
     TraceRefine.tla (one action per hook event, unlogged steps silent): each execution must be a behaviour of WSConn."""
     trace = ctx.path("refine.ndjson")
     rep = ctx.drive("refine", ["-n", n, "-seed", ctx.seed, "-conn-trace", trace, "-kind", kind], timeout=1800)
+    ctx.absorb(rep, only=only)      # an execution whose calls never returned (every call of the scenario is bounded)
     ctx.impl_traces += rep.get("evaluations", 0)
     # one TLC run per (role, scenario): "-n" = the executions with a fifth actor N calling CloseNow (Extra "N" in the configuration)
     # "-ctx" = the executions whose Writer and Ping contexts the application cancels at seeded moments (CtxProcs = {A, P})
